@@ -303,6 +303,8 @@ def harness_opts(c):
         o.append("--not-ready")
     if not c.get("enabled", True):
         o.append("--disabled")
+    if c.get("churn"):
+        o.append("--churn")
     if c.get("op_sleep_us"):
         o += ["--op-sleep-us", str(c["op_sleep_us"])]
     o += ["--ring", str(c.get("K", 8)), "--queue", str(c.get("QCap", 10)), "--stack", str(c.get("SCap", 10))]
